@@ -42,9 +42,15 @@ pub fn gen_tex(rng: &mut Rng, k: Kind, miri: bool) -> Tex {
         let (w, h) = if miri { (rng.range(1, 9), rng.range(1, 5)) } else { (rng.range(1, 40), rng.range(1, 40)) };
         let aw = (w + 7) / 8 * 8;
         let ah = (h + 3) / 4 * 4;
-        let npal = rng.range(1, 256);
+        // palette sizes repeat often (two images with equally long but different palettes)
+        let npal = if rng.bool() { *rng.pick(&[16usize, 200, 256]) } else { rng.range(1, 256) };
         let palette: Vec<u16> = (0..npal).map(|_| rng.u32() as u16).collect();
-        let payload: Vec<u8> = (0..aw * ah).map(|_| rng.below(npal) as u8).collect();
+        let mut payload: Vec<u8> = vec![if npal < 256 { 0xFF } else { 0 }; aw * ah];
+        for y in 0..h {
+            for x in 0..w {
+                payload[pixels::ci8_offset(x, y, aw)] = rng.below(npal) as u8;
+            }
+        }
         return Tex { name: String::new(), width: w, height: h, format: 0, payload, palette };
     }
     let f = *rng.pick(&FMTS);
@@ -72,7 +78,11 @@ pub fn gen_tex(rng: &mut Rng, k: Kind, miri: bool) -> Tex {
             }
         }
         _ => {
-            if rng.chance(1, 3) {
+            if rng.chance(1, 12) {
+                // a long name (the containers store NUL-terminated names of any length)
+                let n = rng.range(60, 90);
+                (0..n).map(|i| if i % 7 == 3 { 'é' } else { (b'a' + (i % 26) as u8) as char }).collect()
+            } else if rng.chance(1, 3) {
                 // UTF-8 names: anything NUL-free that does not start with a BOM character
                 let pool = ['é', 'ü', '日', '本', 'テ', 'ク', 'ス', 'チ', 'ャ', '𝄞', 'a', '_'];
                 (0..rng.range(1, 6)).map(|_| *rng.pick(&pool)).collect()
